@@ -1,2 +1,113 @@
-import check_core
-check_core.main("C05")
+"""C05: re-mastering is a fixpoint.
+
+Part 1: the core corpus (behaviours of PyCdlibModel; R: clauses of ImageChecks judged by TLC).
+Part 2: images of the other models' behaviours, so that every structure the library knows is
+re-mastered: El Torito / isohybrid images from MC_boot behaviours (check_C11's replayer) and Rock
+Ridge images with relocation, long names and symlinks from check_C08's case generators.  Each image
+is opened and written again twice (fixed clock) and once with the clock advanced; TLC evaluates
+RemasterIdentical / RemasterIdempotent / RemasterOnlyModDate (spec/ImageChecks.tla)."""
+import multiprocessing
+import random
+import sys
+import zlib
+
+import det
+det.install()
+import checklib      # noqa: E402
+import check_core    # noqa: E402
+import images        # noqa: E402
+import judge         # noqa: E402
+
+
+def _boot_item(args):
+    (k, hist, cfgname) = args
+    det.install()
+    import check_C11 as L
+    try:
+        r = L.run_history(hist, cfgname, False, keep_image=True)
+    except Exception as e:  # pylint: disable=broad-except
+        return None
+    data = r.get('image')
+    if r.get('kind') != 'item' or data is None:
+        return None
+    acts = [s['act'] for s in hist['h']]
+    circ = {'hybrid': any(a['a'] == 'AddIsohybrid' for a in acts),
+            'part_offset': any(a['a'] == 'AddIsohybrid' and a.get('part_offset', a.get('offset', 0)) not in (0, None)
+                               for a in acts),
+            'unlinked_boot': any(a['a'] == 'RmHardLink' for a in acts),
+            'udf': bool(L.CFGS[cfgname]['udf'])}
+    it = images.image_item('boot%d' % k, data, [], do_remaster=True)
+    return {'id': it['id'], 'item': _only_remaster(it), 'circ': circ, 'src': 'boot',
+            'hist': [a for a in acts][:12], 'cfg': cfgname}
+
+
+def _rr_item(case):
+    det.install()
+    import check_C08 as R
+    try:
+        data, exp, failure = R.run_ops(case)
+    except Exception:  # pylint: disable=broad-except
+        return None
+    if data is None:
+        return None
+    it = images.image_item('rr-' + case['id'], data, [], do_remaster=True)
+    return {'id': it['id'], 'item': _only_remaster(it), 'circ': {'family': case.get('family', ''), 'ver': case['ver'],
+                                                                 'xa': case['xa']},
+            'src': 'rr', 'hist': case['ops'][:6], 'cfg': case['ver']}
+
+
+def _only_remaster(it):
+    """keep what the R: clauses read; neutralise the other clause groups (judged by C03/C04 checks on
+    their own corpora) so that this part reports re-mastering only"""
+    return {'id': it['id'], 'remaster': it['remaster']}
+
+
+def extra(ctx):
+    import check_C11 as L
+    import check_C08 as R
+    quick = ctx.tier == 'quick'
+    rnd = random.Random('c05/%s' % ctx.seed)
+    tasks = []
+    stats = []
+    for (profile, maxlen, cfgs, cap) in (('c11q', 3 if quick else 4, ['plain', 'all', 'jolrr'], 60 if quick else 600),
+                                         ('c12h', 3 if quick else 4, ['plain', 'udf', 'all'], 60 if quick else 600)):
+        hs, st = L.behaviours(profile, maxlen, 0, 1, seed=ctx.seed)
+        stats.append(st)
+        if len(hs) > cap:
+            hs = rnd.sample(hs, cap)
+        for h in hs:
+            for c in cfgs:
+                tasks.append((len(tasks), h, c))
+    cases = R.depth_cases(ctx.tier) + R.history_cases()
+    if quick and len(cases) > 90:
+        cases = rnd.sample(cases, 90)
+    mp = multiprocessing.get_context('fork')
+    with mp.Pool(16) as pool:
+        out = pool.map(_boot_item, tasks, chunksize=4) + pool.map(_rr_item, cases, chunksize=2)
+    out = [o for o in out if o is not None]
+    fails, jst = judge.judge_sharded('Judge_Remaster', [o['item'] for o in out])
+    byid = dict((o['id'], o) for o in out)
+    for iid, clauses in sorted(fails.items()):
+        o = byid[iid]
+        for c in clauses:
+            sig = dict(o['circ'], clause='R:' + c if not c.startswith('R:') else c, source=o['src'], property='C05')
+            ctx.violation(sig, {'remaster': o['item']['remaster'], 'cfg': o['cfg']},
+                          {'source': o['src'], 'cfg': o['cfg'], 'history': o['hist']})
+    ctx.note('extra_images_remastered', len(out))
+    ctx.note('extra_boot_images', sum(1 for o in out if o['src'] == 'boot'))
+    ctx.note('extra_rr_images', sum(1 for o in out if o['src'] == 'rr'))
+    for st in stats:
+        ctx.coverage['states'] = ctx.coverage.get('states', 0) + int(st.get('distinct') or 0)
+        ctx.coverage['transitions'] = ctx.coverage.get('transitions', 0) + int(st.get('generated') or 0)
+    ctx.coverage['traces_validated_against_impl'] = ctx.coverage.get('traces_validated_against_impl', 0) + len(out)
+    if out:
+        ctx.sample({'extra_image': {'id': out[0]['id'], 'cfg': out[0]['cfg'], 'remaster': out[0]['item']['remaster']}})
+
+
+def run(ctx):
+    check_core.run_for('C05')(ctx)
+    extra(ctx)
+
+
+if __name__ == '__main__':
+    sys.exit(checklib.main('C05', 'model_checking', run))
